@@ -249,4 +249,22 @@ PROPS = {
                      "(the inner quoting is HTML-escaped): the reference for the no-escape subsets is the no-escape output, tied byte for byte "
                      "to the standard Encoder"],
     ),
+    "C10": dict(
+        lean_modules=["Enc.Props.C10"],
+        variants=V_DEFAULT, areas=["json.decoder", "json.Marshal", "json.Encoder", "json.Decoder", "json.Parse", "json.Unmarshal", "json.Tokenizer",
+                                   "json.appendCoerceInvalidUTF8", "json.appendRune", "json.encoderBufferPool", "json.encodeKeyFragment"],
+        allowed_native=["Enc.Lemmas.Json", "Lemmas.Json"],
+        main_theorem="Enc.Props.C10.handed_out_stable (pool state machine: results never change under any later history), alias_only_with_flag, no_flags_fresh",
+        rule="(a) provenance: string / Number / RawMessage / []byte literals (escaped, plain, non-ASCII, long) in 13 target shapes "
+             "(top level, struct field, map key and value, slice element, interface, pointer) x 8 copy-flag subsets: the real address "
+             "of the decoded leaf is classified in / out of the input buffer and must equal the Lean model's prediction; without the "
+             "flag it must be out; the leaf must keep its bytes across later library calls on several goroutines, and an out leaf "
+             "across the input being overwritten; (b) histories over the type-directed generator: Unmarshal / Parse x copy flags / "
+             "Decoder (stream of many values forcing refills and compaction) / Tokenizer leave the input bytes unchanged; no region "
+             "of the result aliases the input without its flag; the result is unchanged after pool-churning calls on three "
+             "goroutines and (flags off) after the input is overwritten; Marshal / Append / Encoder results unchanged after the same churn",
+        trusted_base=["addresses are observed with unsafe.StringData / SliceData; the Go garbage collector does not move heap objects"],
+        assumptions=["the pool state machine is a hand-written abstraction of Marshal / Encoder.Encode; its tie to the code is the history test",
+                     "sync.Pool may drop buffers at any time: modelled as an empty pool"],
+    ),
 }
